@@ -16,6 +16,8 @@ RULE = ("Cases = (generator, parameters, seed). makerandCIJ_und/_dir and makerin
         "row/column sums). Non-trivial = 0 < K < maximum (ring lattice: additionally >= 2 bands used and K not a multiple of the band size; "
         "degreesfixed: degree sequence not constant). Distinct by hash of (generator, parameters, seed).")
 BOUNDS = {"exhaustive_quick": "(N,K) N<=7 x 3 seeds", "exhaustive_thorough": "(N,K) N<=9 x 8 seeds", "random_N": "<=20"}
+# units additionally driven by libFuzzer coverage feedback through hypothesis.fuzz_one_input (bctverif/fuzz.py)
+FUZZ_UNITS = {"quick": ["random-parameters"], "thorough": ["random-parameters"]}
 MIN_NONTRIVIAL = {"quick": 300, "thorough": 3000}
 
 
